@@ -60,6 +60,8 @@ def instances(tier, seed):
     for n, edges in enumr.atlas_connected(3, 5):
         if len(edges) <= 6:
             yield {"kind": "identity", "n": n, "edges": edges, "labels": NEGATIVE_LABELS[:n]}
+            # labels 1000, 1007, ...: each occurrence in the edge list is a separate int object
+            yield {"kind": "identity", "n": n, "edges": edges, "labels": enumr.relabelings(n, seed, kinds=("large",))[0]}
     for n, edges in graphs(tier, seed):
         kinds = ("identity", "reversed", "sparse") if (len(edges) <= 11 and n <= 6) else ("identity", "sparse")
         if n == 7 and tier == "quick":
@@ -107,7 +109,7 @@ def run_identity(res, inst):
     from gcmpy.message_passing.equations.automated_equation import AutomatedEquation
     n, lab = inst["n"], inst["labels"]
     verts = [lab[v] for v in range(n)]
-    edges = [(lab[a], lab[b]) for a, b in inst["edges"]]
+    edges = enumr.fresh_edges([(lab[a], lab[b]) for a, b in inst["edges"]])
     p = Poly.var("p")
     u = {v: Poly.var(f"u{v}") for v in verts}
     for root in verts:
